@@ -1,36 +1,12 @@
-(* C11 — the property theorems, derived from the invariant [ginv], and the refutation witnesses. *)
+(* C11 — the property theorems, derived from the invariant [ginv], and the witnesses. *)
 From Coq Require Import Sorted.
 From Verif Require Import Base.Prelude Stream.Model Stream.Amap Stream.Lookup Stream.Inv Stream.Preserve.
 Local Open Scope N_scope.
 
 (* ------------------------------------------------------------------ reaching the invariant *)
 
-Lemma ginv_of_env gf c ls :
-  env_ok c ls -> (gf = true -> gap_free c ls) -> ginv gf (run c ls).
-Proof.
-  intros (H1 & H2 & H3) H4. unfold run. apply ginv_run; [apply ginv_init|].
-  unfold sched_ok. auto.
-Qed.
-
-Lemma all_from_app ok st a b :
-  all_from ok st (a ++ b) = true -> all_from ok st a = true /\ all_from ok (run_from st a) b = true.
-Proof.
-  revert st. induction a as [|l a IH]; intros st; cbn [app all_from run_from fold_left]; [auto|].
-  intros H. apply andb_true_iff in H as [H1 H2]. destruct (IH _ H2) as [H3 H4].
-  split; [apply andb_true_iff; auto|exact H4].
-Qed.
-
-Lemma valid_from_all st ls : valid_from st ls = all_from step_ok st ls.
-Proof. revert st. induction ls as [|l r IH]; intros st; cbn; [reflexivity|]. rewrite IH. reflexivity. Qed.
-
-Lemma env_ok_app c a b : env_ok c (a ++ b) -> env_ok c a.
-Proof.
-  intros (H1 & H2 & H3). rewrite valid_from_all in H1. unfold env_ok. rewrite valid_from_all.
-  apply all_from_app in H1 as [H1 _]. apply all_from_app in H2 as [H2 _]. apply all_from_app in H3 as [H3 _]. auto.
-Qed.
-
-Lemma gap_free_app c a b : gap_free c (a ++ b) -> gap_free c a.
-Proof. intros H. apply all_from_app in H as [H _]. exact H. Qed.
+Lemma ginv_of_env c ls : env_ok c ls -> ginv (run c ls).
+Proof. intros H. unfold run. apply ginv_run; [apply ginv_init|exact H]. Qed.
 
 (* ------------------------------------------------------------------ filters of projected logs *)
 
@@ -49,29 +25,62 @@ Proof. induction 1 as [|x l Hx _ IH]; cbn [filter]; [reflexivity|]. rewrite Hx, 
 Lemma filter_none {A} (p : A -> bool) l : Forall (fun x => p x = false) l -> filter p l = [].
 Proof. induction 1 as [|x l Hx _ IH]; cbn [filter]; [reflexivity|]. rewrite Hx, IH. reflexivity. Qed.
 
-Lemma log_ok_filter p log : log_ok log -> log_ok (filter p log).
+(* what Next will still deliver, in terms of the invariant's R ++ D *)
+Lemma pending_stream st x sb tb D R :
+  c_sub x = Some sb -> s_pre sb = [] -> find_buf (c_ts x) (st_bufs st) = Some tb ->
+  tail (hist_of st) (c_ts x) (Some tb) (s_off sb) = R ++ D ->
+  Forall (fun it => skipped (s_snap sb) it = true) R ->
+  Forall (fun it => c_idx x < item_idx it) D -> s_snap sb <= c_idx x ->
+  pending st x = D.
 Proof.
-  unfold log_ok. intros H. rewrite Forall_forall in *. intros b Hb. apply filter_In in Hb as [Hb _]. apply H, Hb.
+  intros Es Hpre Eb Ht HR HD Hsn. unfold pending. rewrite Es, Hpre. cbn [app].
+  unfold buf_items. rewrite Eb. unfold tail in Ht. cbn [ob_items hist_of h_lq] in Ht. rewrite Ht.
+  rewrite filter_app, filter_none, filter_all; [reflexivity| |].
+  - eapply Forall_impl; [|exact HD]. cbn. intros it H. rewrite not_skipped_gt by lia. reflexivity.
+  - eapply Forall_impl; [|exact HR]. cbn. intros it H. rewrite H. reflexivity.
+Qed.
+
+(* the stream-phase part of the invariant of an open, streaming client *)
+Lemma stream_inv c ls k x :
+  env_ok c ls -> client_of (run c ls) k = Some x -> is_open x = true -> streaming x = true ->
+  exists sb tb A D R,
+    c_sub x = Some sb /\ s_pre sb = [] /\ find_buf (c_ts x) (st_bufs (run c ls)) = Some tb /\
+    core (hist_of (run c ls)) (c_ts x) (c_view x) (c_idx x) A D /\
+    tail (hist_of (run c ls)) (c_ts x) (Some tb) (s_off sb) = R ++ D /\
+    Forall (fun it => skipped (s_snap sb) it = true) R /\ s_snap sb <= c_idx x.
+Proof.
+  intros He Hx Hop Hstr. pose proof (ginv_of_env c ls He) as G.
+  set (st := run c ls) in *. destruct G as [Gnd Gst Ginc Ghi Gq Gh Gr Gi Gc Gn].
+  destruct Gh as (pub & r & Hlog & Hr & Hall & Hbuf & Hcl).
+  destruct (Hcl k x Hx) as (_ & _ & _ & _ & _ & Hsub).
+  unfold is_open in Hop. unfold streaming in Hstr.
+  destruct (c_sub x) as [sb|]; [|discriminate]. destruct (s_status sb); try discriminate.
+  destruct Hsub as [Hl [Hst|Hsn]].
+  2: { destruct Hsn as (_ & acc & rest & A & B2 & D & s & [[Hh _]|(_ & _ & Hpre)] & _).
+       - rewrite Hh in Hstr. discriminate.
+       - rewrite Hpre in Hstr. destruct (c_h x); discriminate. }
+  destruct Hst as (Hpre & _ & _ & Hsn & A & D & R & Hc & Ht & HR).
+  destruct Hl as (tb & Etb & _). rewrite Etb in Ht.
+  exists sb, tb, A, D, R. split; [reflexivity|]. split; [exact Hpre|]. split; [exact Etb|].
+  split; [exact Hc|]. split; [exact Ht|]. split; [exact HR|exact Hsn].
 Qed.
 
 (* ------------------------------------------------------------------ the view is a committed state *)
 
 Theorem view_exact c ls k x :
-  env_ok c ls -> gap_free c ls ->
+  env_ok c ls ->
   client_of (run c ls) k = Some x -> c_idx x <> 0 -> c_epoch x = st_epoch (run c ls) ->
   forall key, aget key (c_view x) = content_at (run c ls) (c_ts x) (c_idx x) key.
 Proof.
-  intros He Hg Hx Hne Hep. pose proof (ginv_of_env true c ls He (fun _ => Hg)) as G.
-  set (st := run c ls) in *. destruct G as [Gnd Gst Glok Ginc Ghi Gh Gr Gc Gn].
+  intros He Hx Hne Hep. pose proof (ginv_of_env c ls He) as G.
+  set (st := run c ls) in *. destruct G as [Gnd Gst Ginc Ghi Gq Gh Gr Gi Gc Gn].
   destruct Gh as (pub & r & Hlog & Hr & Hall & Hbuf & Hcl).
   destruct (Hcl k x Hx) as (_ & _ & _ & _ & Hk & _).
-  destruct Hk as [Hk|[[_ (A & B1 & B2 & D & s & Hc)]|[Hk _]]]; [contradiction| |cbn in Hk; contradiction].
-  destruct Hc as [Hsp Hv Hle Hgt Hci Hss Hgf]. destruct (Hgf eq_refl) as [-> ->].
-  cbn [lastidx map last] in Hci. cbn [hist_of h_log h_base] in *. cbn [app] in *. rewrite app_nil_r in *.
+  destruct Hk as [Hk|[[_ (A & D & Hc)]|[Hk _]]]; [contradiction| |cbn in Hk; contradiction].
+  destruct Hc as [Hsp Hv Hle Hgt Hss]. cbn [hist_of h_log h_base] in *.
   intros key. rewrite (Hv key). unfold content_at. destruct (matches (c_ts x) key) eqn:Em; [|reflexivity].
-  change (apply [] ?m) with m. unfold log_upto.
-  rewrite (aget_all_evs_proj (c_ts x)) by (try apply log_ok_filter; assumption).
-  rewrite (proj_filter (c_ts x) (fun i => N.leb i (c_idx x))), Hsp, filter_app, Hci.
+  unfold log_upto. rewrite (aget_all_evs_proj (c_ts x)) by assumption.
+  rewrite (proj_filter (c_ts x) (fun i => N.leb i (c_idx x))), Hsp, filter_app.
   rewrite filter_all, filter_none, app_nil_r; [reflexivity| |].
   - eapply Forall_impl; [|exact Hgt]. cbn. intros it H. apply N.leb_gt. exact H.
   - eapply Forall_impl; [|exact Hle]. cbn. intros it H. apply N.leb_le. exact H.
@@ -81,8 +90,8 @@ Qed.
 Theorem query_is_log c ls T key :
   env_ok c ls -> content_now (run c ls) T key = content_at (run c ls) T (st_hi (run c ls)) key.
 Proof.
-  intros He. pose proof (ginv_of_env false c ls He (fun H => ltac:(discriminate))) as G.
-  set (st := run c ls) in *. destruct G as [Gnd Gst Glok Ginc Ghi Gh Gr Gc Gn].
+  intros He. pose proof (ginv_of_env c ls He) as G.
+  set (st := run c ls) in *. destruct G as [Gnd Gst Ginc Ghi Gq Gh Gr Gi Gc Gn].
   destruct Gh as (pub & r & Hlog & Hr & Hall & _).
   unfold content_now, content_at. destruct (matches T key); [|reflexivity]. rewrite (Gst key).
   unfold log_upto. rewrite filter_all; [reflexivity|]. eapply Forall_impl; [|exact Hall].
@@ -97,51 +106,29 @@ Theorem eventual c ls k x :
   pending (run c ls) x = [] ->
   forall key, aget key (c_view x) = content_now (run c ls) (c_ts x) key.
 Proof.
-  intros He Hx Hop Hstr Hpen. pose proof (ginv_of_env false c ls He (fun H => ltac:(discriminate))) as G.
-  set (st := run c ls) in *. destruct G as [Gnd Gst Glok Ginc Ghi Gh Gr Gc Gn].
-  destruct Gh as (pub & r & Hlog & Hr & Hall & Hbuf & Hcl).
-  destruct (Hcl k x Hx) as (_ & _ & _ & _ & _ & Hsub).
-  unfold is_open in Hop. unfold streaming in Hstr. unfold pending in Hpen.
-  destruct (c_sub x) as [sb|]; [|discriminate]. destruct (s_status sb); try discriminate.
-  destruct Hsub as [Hl [Hst|Hsn]].
-  2: { destruct Hsn as (acc & rest & A & B2 & D & s & [[Hh _]|(_ & _ & Hpre)] & _).
-       - rewrite Hh in Hstr. discriminate.
-       - rewrite Hpre in Hstr. destruct (c_h x); discriminate. }
-  destruct Hst as (Hpre & _ & _ & A & B1 & B2 & D & s & Hc & Ht).
-  rewrite Hpre in Hpen. cbn [app] in Hpen. unfold tail in Ht. cbn [hist_of h_queue] in Ht.
-  assert (Hbd : B2 ++ D = []).
-  { destruct Hl as (tb & Etb & _). unfold buf_items in Hpen. rewrite Etb in Hpen, Ht. cbn [ob_items] in Ht.
-    rewrite <- Ht. exact Hpen. }
-  apply app_eq_nil in Hbd as [-> ->].
-  destruct Hc as [Hsp Hv _ _ _ _ _]. cbn [hist_of h_log h_base] in *. rewrite !app_nil_r in *.
+  intros He Hx Hop Hstr Hpen.
+  destruct (stream_inv c ls k x He Hx Hop Hstr) as (sb & tb & A & D & R & Es & Hpre & Eb & Hc & Ht & HR & Hsn).
+  destruct Hc as [Hsp Hv Hle Hgt Hss].
+  rewrite (pending_stream _ _ _ _ D R Es Hpre Eb Ht HR Hgt Hsn) in Hpen. subst D.
+  pose proof (ginv_of_env c ls He) as [_ Gst _ _ _ _ _ _ _ _].
+  cbn [hist_of h_log h_base] in *. rewrite app_nil_r in Hsp.
   intros key. rewrite (Hv key). unfold content_now. destruct (matches (c_ts x) key) eqn:Em; [|reflexivity].
-  rewrite (Gst key), (aget_all_evs_proj (c_ts x)) by assumption. rewrite Hsp, ievs_app.
-  apply apply_replay.
+  rewrite (Gst key), (aget_all_evs_proj (c_ts x)) by assumption. rewrite Hsp. reflexivity.
 Qed.
 
 (* ------------------------------------------------------------------ nothing skipped, nothing twice *)
 
 Theorem no_skip c ls k x :
-  env_ok c ls -> gap_free c ls ->
+  env_ok c ls ->
   client_of (run c ls) k = Some x -> is_open x = true -> streaming x = true ->
   pending (run c ls) x = proj (c_ts x) (log_after (c_idx x) (st_log (run c ls))).
 Proof.
-  intros He Hg Hx Hop Hstr. pose proof (ginv_of_env true c ls He (fun _ => Hg)) as G.
-  set (st := run c ls) in *. destruct G as [Gnd Gst Glok Ginc Ghi Gh Gr Gc Gn].
-  destruct Gh as (pub & r & Hlog & Hr & Hall & Hbuf & Hcl).
-  destruct (Hcl k x Hx) as (_ & _ & _ & _ & _ & Hsub).
-  unfold is_open in Hop. unfold streaming in Hstr. unfold pending.
-  destruct (c_sub x) as [sb|]; [|discriminate]. destruct (s_status sb); try discriminate.
-  destruct Hsub as [Hl [Hst|Hsn]].
-  2: { destruct Hsn as (acc & rest & A & B2 & D & s & [[Hh _]|(_ & _ & Hpre)] & _).
-       - rewrite Hh in Hstr. discriminate.
-       - rewrite Hpre in Hstr. destruct (c_h x); discriminate. }
-  destruct Hst as (Hpre & _ & _ & A & B1 & B2 & D & s & Hc & Ht).
-  destruct Hc as [Hsp Hv Hle Hgt Hci Hss Hgf]. destruct (Hgf eq_refl) as [-> ->].
-  cbn [lastidx map last] in Hci. cbn [hist_of h_log h_queue] in *. cbn [app] in *. rewrite app_nil_r in *.
-  rewrite Hpre. cbn [app]. unfold tail in Ht.
-  destruct Hl as (tb & Etb & _). unfold buf_items. rewrite Etb in *. cbn [ob_items hist_of h_queue] in Ht. rewrite Ht.
-  unfold log_after. rewrite (proj_filter (c_ts x) (fun i => N.ltb (c_idx x) i)), Hsp, filter_app, Hci.
+  intros He Hx Hop Hstr.
+  destruct (stream_inv c ls k x He Hx Hop Hstr) as (sb & tb & A & D & R & Es & Hpre & Eb & Hc & Ht & HR & Hsn).
+  destruct Hc as [Hsp Hv Hle Hgt Hss].
+  rewrite (pending_stream _ _ _ _ D R Es Hpre Eb Ht HR Hgt Hsn).
+  cbn [hist_of h_log] in Hsp. unfold log_after.
+  rewrite (proj_filter (c_ts x) (fun i => N.ltb (c_idx x) i)), Hsp, filter_app.
   rewrite filter_none, filter_all; [reflexivity| |].
   - eapply Forall_impl; [|exact Hgt]. cbn. intros it H. apply N.ltb_lt. exact H.
   - eapply Forall_impl; [|exact Hle]. cbn. intros it H. apply N.ltb_ge. exact H.
@@ -150,52 +137,55 @@ Qed.
 (* ------------------------------------------------------------------ delivered indexes never decrease *)
 
 Theorem monotone c ls k x st' it x' :
-  env_ok c ls -> gap_free c ls ->
+  env_ok c ls ->
   client_of (run c ls) k = Some x ->
   step (run c ls) (LNext k) = (st', ODeliver it) -> it <> INstf ->
   client_of st' k = Some x' ->
   c_idx x <= c_idx x'.
 Proof.
-  intros He Hg Hx Hstep Hnot Hx'. pose proof (ginv_of_env true c ls He (fun _ => Hg)) as G.
-  set (st := run c ls) in *. destruct G as [Gnd Gst Glok Ginc Ghi Gh Gr Gc Gn].
+  intros He Hx Hstep Hnot Hx'. pose proof (ginv_of_env c ls He) as G.
+  set (st := run c ls) in *. destruct G as [Gnd Gst Ginc Ghi Gq Gh Gr Gi Gc Gn].
   destruct Gh as (pub & r & Hlog & Hr & Hall & Hbuf & Hcl).
   destruct (Hcl k x Hx) as (_ & _ & _ & Hs & _ & Hsub).
   cbn [step] in Hstep. unfold do_next in Hstep. unfold client_of in Hx, Hx'. rewrite Hx in Hstep.
   destruct (c_sub x) as [sb|]; [|discriminate]. destruct (s_status sb) eqn:Est.
   2, 3: destruct (c_rpc x); discriminate.
   destruct Hsub as [Hl Hsub].
-  destruct (s_pre sb) as [|it0 pre'] eqn:Epre.
+  destruct (drop_skipped (s_snap sb) (s_pre sb)) as [|it0 pre'] eqn:Epre.
   - (* from the topic buffer *)
-    destruct (nth_error (buf_items (c_ts x) (st_bufs st)) (s_off sb)) as [it1|] eqn:Enth; [|discriminate].
+    match type of Hstep with context [first_new _ (skipn _ ?items) _] => set (its := items) in * end.
+    destruct (first_new (s_snap sb) (skipn (s_off sb) its) (s_off sb)) as [[it1 off']|] eqn:Efn; [|discriminate].
     injection Hstep as <- <-. cbn [with_clients st_clients] in Hx'. rewrite find_put_client_same in Hx'.
     injection Hx' as <-.
     destruct Hsub as [Hst|Hsn].
-    2: { destruct Hsn as (acc & rest & A & B2 & D & s & [[_ Hpre]|(_ & _ & Hpre)] & _);
-         [destruct rest; discriminate|discriminate]. }
-    destruct Hst as (_ & Hh & _ & A & B1 & B2 & D & s & Hc & Ht).
-    destruct Hc as [Hsp Hv Hle Hgt Hci Hss Hgf]. destruct (Hgf eq_refl) as [-> ->].
-    cbn [lastidx map last] in Hci. cbn [app] in Ht. unfold tail in Ht.
-    destruct Hl as (tb & Etb & _). unfold buf_items in Enth. rewrite Etb in *. cbn [ob_items] in Ht.
-    rewrite (nth_error_skipn _ _ _ Enth) in Ht. cbn [app] in Ht. destruct D as [|d D']; [discriminate|].
-    injection Ht as -> _. apply Forall_cons_iff in Hgt as [Hd _].
+    2: { destruct Hsn as (Hs0 & acc & rest & A & B2 & D & s & [[_ Hpre]|(_ & _ & Hpre)] & _);
+         rewrite Hs0, drop_skipped_zero, Hpre in Epre; [destruct rest; discriminate|discriminate]. }
+    destruct Hst as (_ & Hh & _ & Hsn & A & D & R & Hc & Ht & HR).
+    destruct Hc as [Hsp Hv Hle Hgt Hss].
+    destruct Hl as (tb & Etb & _ & Hid). unfold its in Efn. rewrite Etb, Hid, N.eqb_refl in Efn.
+    rewrite Etb in Ht. unfold tail in Ht. cbn [ob_items] in Ht.
+    apply app_eq_app in Ht as (l & [[HS HD]|[HRl HQ]]).
+    2: { rewrite first_new_none in Efn; [discriminate|]. rewrite HRl in HR. apply Forall_app in HR. apply HR. }
+    rewrite HS, first_new_skip in Efn by exact HR.
+    destruct l as [|d l']; [discriminate|]. cbn [first_new] in Efn.
+    assert (Hdgt : c_idx x < item_idx d).
+    { rewrite Forall_forall in Hgt. apply Hgt. rewrite HD. left; reflexivity. }
+    rewrite not_skipped_gt in Efn by lia. injection Efn as <- _.
     unfold handle. destruct Hh as [-> | ->]; destruct d; cbn [c_idx item_idx] in *; try lia.
     all: congruence.
   - (* from the snapshot *)
     injection Hstep as <- <-. cbn [with_clients st_clients] in Hx'. rewrite find_put_client_same in Hx'.
     injection Hx' as <-.
-    destruct Hsub as [Hst|Hsn]; [destruct Hst as (Hp & _); discriminate|].
-    destruct Hsn as (acc & rest & A & B2 & D & s & [[Hh Hpre]|(Hh & _ & Hpre)] & Hso).
+    destruct Hsub as [Hst|Hsn]; [destruct Hst as (Hp & _); rewrite Hp in Epre; discriminate|].
+    destruct Hsn as (Hs0 & acc & rest & A & B2 & D & s & [[Hh Hpre]|(Hh & _ & Hpre)] & Hso).
     + rewrite (Hs acc Hh). lia.
-    + injection Hpre as -> _. congruence.
+    + rewrite Hs0, drop_skipped_zero, Hpre in Epre. injection Epre as E1 _. congruence.
 Qed.
 
 (* ------------------------------------------------------------------ forced resubscription *)
 
-Lemma client_of_with st cl : client_of (with_clients st cl) = fun c => find_client c cl.
-Proof. reflexivity. Qed.
-
-Lemma release_clients T st : st_clients (release T st) = st_clients st.
-Proof. unfold release. destruct (find_buf T (st_bufs st)) as [b|]; [|reflexivity]. destruct (tb_refs b) as [|[|n]]; reflexivity. Qed.
+Lemma release_clients T id st : st_clients (release T id st) = st_clients st.
+Proof. apply release_hist. Qed.
 
 Lemma sub_core_other st k x0 q c :
   c <> k -> client_of (fst (do_subscribe_core st k x0 q)) c = client_of st c.
@@ -222,7 +212,8 @@ Proof.
   intros (x & sb & Hx & Hs & Hst) Ht. unfold closed_for, client_of in *.
   destruct l as [b| |k T tok rpc q|k|k|rows hi|T]; cbn [step fst touches_client] in *.
   - exists x, sb. auto.
-  - unfold do_publish. destruct (st_queue st) as [|b q]; [exists x, sb; auto|]. cbn [fst st_clients].
+  - unfold do_publish. destruct (st_queue st) as [|[g b] q]; [exists x, sb; auto|].
+    destruct (N.eqb g (st_epoch st)); cbn [fst st_clients]; [|exists x, sb; auto].
     rewrite find_client_map, Hx. cbn [option_map]. unfold close_sub_acl. rewrite Hs.
     destruct (s_status sb) eqn:E; [congruence| |]; exists x, sb; rewrite ?E; auto.
   - apply N.eqb_neq in Ht. unfold do_subscribe. destruct (find_client k (st_clients st)) as [y|] eqn:Ek.
@@ -237,8 +228,8 @@ Proof.
         eexists _, sb; cbn [c_sub]; rewrite ?E; repeat split; eauto; congruence.
     + destruct (c_sub y) as [sby|]; [|exists x, sb; auto].
       destruct (s_status sby).
-      * destruct (s_pre sby); [destruct (nth_error _ _)|]; cbn [fst with_clients st_clients];
-          rewrite ?find_put_client_other by congruence; exists x, sb; auto.
+      * destruct (drop_skipped (s_snap sby) (s_pre sby)); [destruct (first_new _ _ _) as [[? ?]|]|];
+          cbn [fst with_clients st_clients]; rewrite ?find_put_client_other by congruence; exists x, sb; auto.
       * destruct (c_rpc y); cbn [fst with_clients st_clients]; rewrite ?find_put_client_other by congruence; exists x, sb; auto.
       * destruct (c_rpc y); cbn [fst with_clients st_clients]; rewrite ?find_put_client_other by congruence; exists x, sb; auto.
   - apply N.eqb_neq in Ht. pose proof (unsub_other st k c Ht) as H2. unfold client_of in H2. rewrite H2. exists x, sb. auto.
@@ -265,11 +256,12 @@ Proof.
   - exists x, sb. rewrite E. repeat split; auto. discriminate.
 Qed.
 
+(* the batch at the head of the queue belongs to the current generation and names the token *)
 Theorem acl_publish_closes st b q c x sb :
-  st_queue st = b :: q -> client_of st c = Some x -> c_sub x = Some sb ->
+  st_queue st = (st_epoch st, b) :: q -> client_of st c = Some x -> c_sub x = Some sb ->
   In (c_tok x) (b_close b) -> closed_for (fst (step st LPublish)) c.
 Proof.
-  intros Hq Hx Hs Hin. unfold closed_for, client_of in *. cbn [step]. unfold do_publish. rewrite Hq.
+  intros Hq Hx Hs Hin. unfold closed_for, client_of in *. cbn [step]. unfold do_publish. rewrite Hq, N.eqb_refl.
   cbn [fst st_clients]. rewrite find_client_map, Hx. cbn [option_map]. unfold close_sub_acl. rewrite Hs.
   assert (existsb (N.eqb (c_tok x)) (b_close b) = true) as He.
   { apply existsb_exists. exists (c_tok x). split; [exact Hin|apply N.eqb_refl]. }
@@ -298,141 +290,74 @@ Definition T_web : ts := (0, Some 0).
 Definition kA : key := (0, 0, 3).
 Definition kB : key := (0, 0, 4).
 
-(* two commits are queued, a subscription starts, then the queue is published (DESIGN.md 9, finding 11):
-   snapshot@11, EndOfSnapshot@11, then the event of index 10 *)
+(* the schedule of the repaired finding 11: two commits are queued, a subscription starts, then the
+   queue is published.  The snapshot@11 is delivered; the queued batches 10 and 11 are skipped. *)
 Definition gap_sched : list label :=
-  [ LCommit (Batch 10 [Ev kA (Some 1)] [] []);
-    LCommit (Batch 11 [Ev kB (Some 2)] [] []);
+  [ LCommit (Batch 10 [Ev kA (Some 1)] []);
+    LCommit (Batch 11 [Ev kA (Some 2); Ev kB (Some 3)] []);
     LSubscribe 0 T_web 0 true 11;
     LPublish; LPublish;
     LNext 0; LNext 0; LNext 0 ].
 
-(* same gap; the second commit changes both rows: after the event of index 10 the view is
-   {A:1, B:3}, which is the content at no index ({A:1} at 10, {A:2, B:3} from 11 on) *)
-Definition hybrid_sched : list label :=
-  [ LCommit (Batch 10 [Ev kA (Some 1)] [] []);
-    LCommit (Batch 11 [Ev kA (Some 2); Ev kB (Some 3)] [] []);
-    LSubscribe 0 T_web 0 true 11;
-    LPublish; LPublish;
-    LNext 0; LNext 0; LNext 0; LNext 0 ].
-
-(* a second subscriber keeps the topic buffer alive across a restore: the re-subscribing client is
-   spliced onto the old buffer and receives the event of index 11 of the replaced store *)
+(* a second subscriber keeps its subscription across a restore: the topic buffer is dropped, the
+   re-subscribing client gets a new buffer *)
 Definition restore_buffer_sched : list label :=
-  [ LCommit (Batch 10 [Ev kA (Some 1)] [] []); LPublish;
+  [ LCommit (Batch 10 [Ev kA (Some 1)] []); LPublish;
     LSubscribe 0 T_web 0 true 10; LSubscribe 1 T_web 1 true 10;
     LNext 0; LNext 0;
-    LCommit (Batch 11 [Ev kB (Some 2)] [] []); LPublish; LNext 0;
+    LCommit (Batch 11 [Ev kB (Some 2)] []); LPublish; LNext 0;
     LRestore [(kA, 1)] 11;
     LNext 0;
     LSubscribe 0 T_web 0 true 10;
     LNext 0; LNext 0; LNext 0 ].
 
-(* a batch of the replaced store is still queued when the restore happens *)
+(* a batch of the replaced store is still queued when the restore happens: it is dropped *)
 Definition restore_queue_sched : list label :=
-  [ LCommit (Batch 10 [Ev kA (Some 1)] [] []); LPublish;
-    LCommit (Batch 11 [Ev kB (Some 2)] [] []);
+  [ LCommit (Batch 10 [Ev kA (Some 1)] []); LPublish;
+    LCommit (Batch 11 [Ev kB (Some 2)] []);
     LRestore [(kA, 1)] 11;
     LSubscribe 0 T_web 0 true 10;
     LPublish;
     LNext 0; LNext 0; LNext 0 ].
 
-(* a commit changes the query result without an event (catalog_events.go: an instance that stops
-   being connect-native leaves the connect query but no event goes to the connect topic) *)
-Definition T_conn : ts := (1, Some 0).
-Definition kC : key := (1, 0, 3).
-Definition silent_sched : list label :=
-  [ LCommit (Batch 10 [Ev kC (Some 1)] [] []); LPublish;
-    LSubscribe 0 T_conn 0 true 10; LNext 0; LNext 0;
-    LCommit (Batch 11 [] [] [Ev kC None]); LPublish; LNext 0 ].
+(* the query reports index 10 for a result that already contains commit 11 (known finding
+   query-index-behind-content): the snapshot is {A, B} at "index 10" *)
+Definition index_behind_sched : list label :=
+  [ LCommit (Batch 10 [Ev kA (Some 1)] []); LPublish;
+    LCommit (Batch 11 [Ev kB (Some 2)] []); LPublish;
+    LSubscribe 0 T_web 0 true 10;
+    LNext 0; LNext 0; LNext 0 ].
 
-(* a schedule that meets every assumption and delivers a snapshot and two events *)
+(* a schedule that delivers a snapshot and two events *)
 Definition clean_sched : list label :=
-  [ LCommit (Batch 10 [Ev kA (Some 1)] [] []); LPublish;
+  [ LCommit (Batch 10 [Ev kA (Some 1)] []); LPublish;
     LSubscribe 0 T_web 0 true 10; LNext 0; LNext 0;
-    LCommit (Batch 11 [Ev kB (Some 2)] [] []); LPublish; LNext 0;
-    LCommit (Batch 12 [Ev kA None] [7] []); LPublish; LNext 0 ].
+    LCommit (Batch 11 [Ev kB (Some 2)] []); LPublish; LNext 0;
+    LCommit (Batch 12 [Ev kA None] [7]); LPublish; LNext 0 ].
 
-Definition all_ok (c : bool) (ls : list label) : bool :=
-  valid_from (init c) ls && all_from events_ok (init c) ls && all_from restore_ok (init c) ls.
-
-Lemma all_ok_env c ls : all_ok c ls = true -> env_ok c ls.
-Proof.
-  unfold all_ok, env_ok. intros H. apply andb_true_iff in H as [H H3]. apply andb_true_iff in H as [H1 H2]. auto.
-Qed.
-
-Lemma monotone_witness :
-  exists x st' it x',
-    env_ok true gap_sched /\
-    client_of (run true gap_sched) 0 = Some x /\
-    step (run true gap_sched) (LNext 0) = (st', ODeliver it) /\ it <> INstf /\
-    client_of st' 0 = Some x' /\ c_idx x = 11 /\ c_idx x' = 10.
-Proof.
-  eexists _, _, _, _. split; [apply all_ok_env; vm_compute; reflexivity|].
-  split; [vm_compute; reflexivity|]. split; [vm_compute; reflexivity|].
-  split; [discriminate|]. split; [vm_compute; reflexivity|]. split; vm_compute; reflexivity.
-Qed.
-
-Lemma hybrid_witness :
+Definition settled (c : bool) (ls : list label) (view : amap) (idx : N) : Prop :=
   exists x,
-    env_ok true hybrid_sched /\
-    client_of (run true hybrid_sched) 0 = Some x /\ c_idx x = 10 /\
-    c_epoch x = st_epoch (run true hybrid_sched) /\
-    aget kB (c_view x) = Some 3 /\
-    content_at (run true hybrid_sched) (c_ts x) (c_idx x) kB = None.
-Proof.
-  eexists. split; [apply all_ok_env; vm_compute; reflexivity|].
-  split; [vm_compute; reflexivity|]. repeat split; vm_compute; reflexivity.
-Qed.
+    env_ok c ls /\ client_of (run c ls) 0 = Some x /\ is_open x = true /\ streaming x = true /\
+    c_view x = view /\ c_idx x = idx /\ pending (run c ls) x = [] /\ st_queue (run c ls) = [] /\
+    snd (step (run c ls) (LNext 0)) = OBlock.
 
-Definition stale_view (c : bool) (ls : list label) : Prop :=
-  exists x key,
-    client_of (run c ls) 0 = Some x /\ is_open x = true /\ streaming x = true /\
-    pending (run c ls) x = [] /\ aget key (c_view x) <> content_now (run c ls) (c_ts x) key.
+Lemma gap_witness : settled true gap_sched [(kA, 2); (kB, 3)] 11.
+Proof. eexists. do 8 (split; [vm_compute; reflexivity|]). vm_compute; reflexivity. Qed.
 
-Lemma restore_buffer_witness :
-  valid_from (init true) restore_buffer_sched = true /\
-  all_from events_ok (init true) restore_buffer_sched = true /\
-  gap_free true restore_buffer_sched /\ st_queue (run true restore_buffer_sched) = [] /\
-  stale_view true restore_buffer_sched.
-Proof.
-  split; [vm_compute; reflexivity|]. split; [vm_compute; reflexivity|]. split; [vm_compute; reflexivity|].
-  split; [vm_compute; reflexivity|].
-  eexists _, kB. split; [vm_compute; reflexivity|]. split; [vm_compute; reflexivity|].
-  split; [vm_compute; reflexivity|]. split; [vm_compute; reflexivity|]. vm_compute. discriminate.
-Qed.
+Lemma restore_buffer_witness : settled true restore_buffer_sched [(kA, 1)] 10.
+Proof. eexists. do 8 (split; [vm_compute; reflexivity|]). vm_compute; reflexivity. Qed.
 
-Lemma restore_queue_witness :
-  valid_from (init true) restore_queue_sched = true /\
-  all_from events_ok (init true) restore_queue_sched = true /\
-  st_queue (run true restore_queue_sched) = [] /\
-  stale_view true restore_queue_sched.
-Proof.
-  split; [vm_compute; reflexivity|]. split; [vm_compute; reflexivity|].
-  split; [vm_compute; reflexivity|].
-  eexists _, kB. split; [vm_compute; reflexivity|]. split; [vm_compute; reflexivity|].
-  split; [vm_compute; reflexivity|]. split; [vm_compute; reflexivity|]. vm_compute. discriminate.
-Qed.
+Lemma restore_queue_witness : settled true restore_queue_sched [(kA, 1)] 10.
+Proof. eexists. do 8 (split; [vm_compute; reflexivity|]). vm_compute; reflexivity. Qed.
 
-Lemma silent_witness :
-  valid_from (init true) silent_sched = true /\
-  all_from restore_ok (init true) silent_sched = true /\
-  gap_free true silent_sched /\ st_queue (run true silent_sched) = [] /\
-  stale_view true silent_sched.
-Proof.
-  split; [vm_compute; reflexivity|]. split; [vm_compute; reflexivity|]. split; [vm_compute; reflexivity|].
-  split; [vm_compute; reflexivity|].
-  eexists _, kC. split; [vm_compute; reflexivity|]. split; [vm_compute; reflexivity|].
-  split; [vm_compute; reflexivity|]. split; [vm_compute; reflexivity|]. vm_compute. discriminate.
-Qed.
+Lemma clean_witness : settled true clean_sched [(kB, 2)] 12.
+Proof. eexists. do 8 (split; [vm_compute; reflexivity|]). vm_compute; reflexivity. Qed.
 
-Lemma clean_witness :
+Lemma index_behind_witness :
   exists x,
-    env_ok true clean_sched /\ gap_free true clean_sched /\
-    client_of (run true clean_sched) 0 = Some x /\ c_idx x = 12 /\
-    c_epoch x = st_epoch (run true clean_sched) /\ is_open x = true /\ streaming x = true /\
-    c_view x = [(kB, 2)] /\ pending (run true clean_sched) x = [].
-Proof.
-  eexists. split; [apply all_ok_env; vm_compute; reflexivity|]. split; [vm_compute; reflexivity|].
-  split; [vm_compute; reflexivity|]. repeat split; vm_compute; reflexivity.
-Qed.
+    all_from raft_ok (init true) index_behind_sched = true /\
+    client_of (run true index_behind_sched) 0 = Some x /\ c_idx x = 10 /\
+    c_epoch x = st_epoch (run true index_behind_sched) /\
+    aget kB (c_view x) = Some 2 /\
+    content_at (run true index_behind_sched) (c_ts x) (c_idx x) kB = None.
+Proof. eexists. do 5 (split; [vm_compute; reflexivity|]). vm_compute; reflexivity. Qed.
